@@ -3,7 +3,10 @@
 (* COMPOSITION: StatsdClient -> QueuingMetricSink -> buffered sink -> wire *)
 (* (the stack the integration tests build and nobody reads back).          *)
 (*   Emit      client call: format + QueuingMetricSink::emit (try_send)    *)
-(*   Deliver   worker thread: recv + wrapped.emit(m) under the sink's lock *)
+(*   Recv/Hand worker thread: recv, then wrapped.emit(m) under the sink's  *)
+(*             lock - two steps: between them the worker HOLDS a metric    *)
+(*             that is neither queued nor buffered, while other threads    *)
+(*             emit and flush                                              *)
 (*   Flush     StatsdClient::flush -> QueuingMetricSink::flush ->          *)
 (*             wrapped.flush() ON THE CALLER'S THREAD (queuing.rs:273):    *)
 (*             it does not wait for what is still queued                   *)
@@ -17,18 +20,23 @@
 (*   - a flush that returns while metrics are still QUEUED has not written *)
 (*     them: flush concerns what reached the buffered sink (C06's wording).*)
 (* Bug: "drop-no-flush" (release without the final write), "flush-noop"    *)
-(* (QueuingMetricSink::flush returns Ok without delegating).               *)
+(* (QueuingMetricSink::flush returns Ok without delegating), "flush-drains"*)
+(* (flush hands the queued metrics to the wrapped sink on the caller's     *)
+(* thread: a second consumer - the order is lost, seeded change S68).      *)
 (***************************************************************************)
 EXTENDS Naturals, Sequences, FiniteSets, TLC
 
 CONSTANTS QCap, Cap, MaxMetrics, Lens, Bug
 
-VARIABLES nextM, len, chan, accepted, pend, wire, alive, stopSent, wk, released, flushedAt
-vars == <<nextM, len, chan, accepted, pend, wire, alive, stopSent, wk, released, flushedAt>>
+VARIABLES nextM, len, chan, accepted, pend, wire, alive, stopSent, wk, released, flushedAt,
+          cur,      \* the metric the worker has taken off the queue and not yet handed to the wrapped sink (0 = none)
+          handed    \* history: what reached the wrapped sink, in order
+vars == <<nextM, len, chan, accepted, pend, wire, alive, stopSent, wk, released, flushedAt, cur, handed>>
 STOP == 0
 
 Init == /\ nextM = 1 /\ len = <<>> /\ chan = <<>> /\ accepted = <<>> /\ pend = <<>> /\ wire = <<>>
         /\ alive = TRUE /\ stopSent = FALSE /\ wk = "run" /\ released = FALSE /\ flushedAt = <<>>
+        /\ cur = 0 /\ handed = <<>>
 
 Size(m) == len[m] + 1
 PLen == LET S[i \in 0..Len(pend)] == IF i = 0 THEN 0 ELSE S[i - 1] + Size(pend[i]) IN S[Len(pend)]
@@ -37,43 +45,55 @@ Emit(l) == /\ alive /\ nextM <= MaxMetrics
            /\ len' = Append(len, l) /\ nextM' = nextM + 1
            /\ IF Len(chan) < QCap THEN chan' = Append(chan, nextM) /\ accepted' = Append(accepted, nextM)
                                   ELSE UNCHANGED <<chan, accepted>>
-           /\ UNCHANGED <<pend, wire, alive, stopSent, wk, released, flushedAt>>
+           /\ UNCHANGED <<pend, wire, alive, stopSent, wk, released, flushedAt, cur, handed>>
 
-\* the buffered sink's emit (fault free), one critical section
-SinkEmit(m) == IF Size(m) > Cap THEN wire' = Append(wire, <<m>>) /\ UNCHANGED pend
-               ELSE IF PLen + Size(m) > Cap THEN wire' = Append(wire, pend) /\ pend' = <<m>>
-               ELSE pend' = Append(pend, m) /\ UNCHANGED wire
+\* the buffered sink's emit (fault free), one critical section, as a function of (buffer, wire)
+SeqLen(p) == LET S[i \in 0..Len(p)] == IF i = 0 THEN 0 ELSE S[i - 1] + Size(p[i]) IN S[Len(p)]
+SinkF(st, m) == IF Size(m) > Cap THEN [pend |-> st.pend, wire |-> Append(st.wire, <<m>>)]
+                ELSE IF SeqLen(st.pend) + Size(m) > Cap THEN [pend |-> <<m>>, wire |-> Append(st.wire, st.pend)]
+                ELSE [pend |-> Append(st.pend, m), wire |-> st.wire]
+RECURSIVE SinkAll(_, _)
+SinkAll(st, ms) == IF ms = <<>> THEN st ELSE SinkAll(SinkF(st, Head(ms)), Tail(ms))
 
-Deliver == /\ wk = "run" /\ chan # <<>> /\ Head(chan) # STOP
-           /\ SinkEmit(Head(chan)) /\ chan' = Tail(chan)
-           /\ UNCHANGED <<nextM, len, accepted, alive, stopSent, wk, released, flushedAt>>
+Recv == /\ wk = "run" /\ cur = 0 /\ chan # <<>> /\ Head(chan) # STOP
+        /\ cur' = Head(chan) /\ chan' = Tail(chan)
+        /\ UNCHANGED <<nextM, len, accepted, pend, wire, alive, stopSent, wk, released, flushedAt, handed>>
+Hand == /\ cur # 0
+        /\ LET st == SinkF([pend |-> pend, wire |-> wire], cur) IN pend' = st.pend /\ wire' = st.wire
+        /\ handed' = Append(handed, cur) /\ cur' = 0
+        /\ UNCHANGED <<nextM, len, chan, accepted, alive, stopSent, wk, released, flushedAt>>
 
 Flush == /\ alive
-         /\ IF Bug = "flush-noop" THEN UNCHANGED <<pend, wire>>
+         /\ IF Bug = "flush-noop" THEN UNCHANGED <<pend, wire, chan, handed>>
+            ELSE IF Bug = "flush-drains"
+            THEN \* model mutant: the caller first hands everything that is queued to the wrapped sink itself
+                 LET st == SinkAll([pend |-> pend, wire |-> wire], chan) IN
+                 /\ wire' = IF st.pend # <<>> THEN Append(st.wire, st.pend) ELSE st.wire
+                 /\ pend' = <<>> /\ handed' = handed \o chan /\ chan' = <<>>
             ELSE /\ wire' = IF pend # <<>> THEN Append(wire, pend) ELSE wire
-                 /\ pend' = <<>>
-         /\ flushedAt' = <<[queued |-> {chan[i] : i \in 1..Len(chan)}, pend |-> pend']>>   \* the last flush only (keeps the model finite)
-         /\ UNCHANGED <<nextM, len, chan, accepted, alive, stopSent, wk, released>>
+                 /\ pend' = <<>> /\ UNCHANGED <<chan, handed>>
+         /\ flushedAt' = <<[queued |-> {chan'[i] : i \in 1..Len(chan')}, pend |-> pend']>>   \* the last flush only (keeps the model finite)
+         /\ UNCHANGED <<nextM, len, accepted, alive, stopSent, wk, released, cur>>
 
 DropClient == /\ alive /\ alive' = FALSE
-              /\ UNCHANGED <<nextM, len, chan, accepted, pend, wire, stopSent, wk, released, flushedAt>>
+              /\ UNCHANGED <<nextM, len, chan, accepted, pend, wire, stopSent, wk, released, flushedAt, cur, handed>>
 \* the stop marker is queued behind everything accepted (helper thread when the queue is full)
 StopMarker == /\ ~alive /\ ~stopSent /\ Len(chan) < QCap
               /\ chan' = Append(chan, STOP) /\ stopSent' = TRUE
-              /\ UNCHANGED <<nextM, len, accepted, pend, wire, alive, wk, released, flushedAt>>
-WorkerExit == /\ wk = "run" /\ chan # <<>> /\ Head(chan) = STOP
+              /\ UNCHANGED <<nextM, len, accepted, pend, wire, alive, wk, released, flushedAt, cur, handed>>
+WorkerExit == /\ wk = "run" /\ cur = 0 /\ chan # <<>> /\ Head(chan) = STOP
               /\ chan' = Tail(chan) /\ wk' = "ended"
-              /\ UNCHANGED <<nextM, len, accepted, pend, wire, alive, stopSent, released, flushedAt>>
+              /\ UNCHANGED <<nextM, len, accepted, pend, wire, alive, stopSent, released, flushedAt, cur, handed>>
 \* the wrapped sink is dropped: BufWriter's Drop writes what is left
 Release == /\ wk = "ended" /\ ~alive /\ ~released
            /\ released' = TRUE
            /\ IF Bug = "drop-no-flush" THEN UNCHANGED <<wire, pend>>
               ELSE wire' = (IF pend # <<>> THEN Append(wire, pend) ELSE wire) /\ pend' = <<>>
-           /\ UNCHANGED <<nextM, len, chan, accepted, alive, stopSent, wk, flushedAt>>
+           /\ UNCHANGED <<nextM, len, chan, accepted, alive, stopSent, wk, flushedAt, cur, handed>>
 
-Next == (\E l \in Lens : Emit(l)) \/ Deliver \/ Flush \/ DropClient \/ StopMarker \/ WorkerExit \/ Release
+Next == (\E l \in Lens : Emit(l)) \/ Recv \/ Hand \/ Flush \/ DropClient \/ StopMarker \/ WorkerExit \/ Release
 Spec == Init /\ [][Next]_vars
-LiveSpec == Spec /\ WF_vars(Deliver) /\ WF_vars(StopMarker) /\ WF_vars(WorkerExit) /\ WF_vars(Release)
+LiveSpec == Spec /\ WF_vars(Recv) /\ WF_vars(Hand) /\ WF_vars(StopMarker) /\ WF_vars(WorkerExit) /\ WF_vars(Release)
 
 RECURSIVE Flat(_)
 Flat(ds) == IF ds = <<>> THEN <<>> ELSE Head(ds) \o Flat(Tail(ds))
@@ -91,6 +111,10 @@ NoDupNoAlien == /\ \A i, j \in 1..Len(OnWire) : i # j => OnWire[i] # OnWire[j]
 EndToEnd == released =>
               /\ {OnWire[i] : i \in 1..Len(OnWire)} = {accepted[i] : i \in 1..Len(accepted)}
               /\ Sub(OnWire, Fits) = Sub(accepted, Fits)
+\* one consumer: what reaches the wrapped sink is a prefix of what was accepted, in acceptance order (C08 inside the stack;
+\* with several threads on one client this is what keeps each thread's metrics in its program order, C12)
+HandOverOrder == /\ Len(handed) <= Len(accepted)
+                 /\ \A i \in 1..Len(handed) : handed[i] = accepted[i]
 \* a successful flush leaves nothing in the BUFFER (what is still queued is not its business)
 FlushEmpties == \A i \in 1..Len(flushedAt) : flushedAt[i].pend = <<>>
 Eventually == [](~alive => <>released)
